@@ -374,6 +374,9 @@ func ResetRunStats() {
 		tsteps[i], tcleanup[i], tinparse[i], tinject[i], tpoolHeld[i] = 0, 0, 0, 0, 0
 	}
 	opBudget = 200000
+	// every run starts with empty simulated pools ("a GC happened"): a run's behaviour must
+	// not depend on which runs the same process executed before
+	ClearPools()
 }
 
 // BeginRun enters ModeSim; tasks started afterwards wait for their turn.
